@@ -41,7 +41,7 @@ theorem no_deadlock {sh : Sh} {ths : Nat → Th} (h : Inv ⟨sh, ths⟩) (u : Na
     cases hact : (ths u).act with
     | some a =>
       have : ∃ tok, (progOf a.path)[a.pc]? = some tok := by
-        rcases h.phase' with ⟨_, _, _, _, hq⟩ | ⟨r, _, h1, _⟩ | ⟨_, _, _, hq, _⟩
+        rcases h.phaseC with ⟨_, _, _, _, hq⟩ | ⟨r, _, h1, _⟩ | ⟨_, _, _, hq, _⟩
         · exact pre_tok (hq u a hact).1
         · exact absurd ⟨r, h1⟩ hrun
         · rcases hq u a hact with ⟨hp, _⟩ | ⟨hp, _⟩
